@@ -145,6 +145,7 @@ func (d dpDriver) record(hist []int) (*crashlog.Log, *crashlog.Image, []error, e
 		fid = fmt.Errorf("device log does not reproduce the index rows")
 	}
 	sto.(io.Closer).Close()
+	blobserver.VerifResetHubs()
 	return log, base, errs, fid
 }
 
@@ -351,6 +352,8 @@ func evaluate(d driver, hist []int, log *crashlog.Log, base *crashlog.Image, c c
 		return fail("open", "cannot-open-after-crash", err.Error())
 	}
 	defer closeFn()
+	// the blob hub keeps every storage that received a blob alive in a process-global map
+	defer blobserver.VerifResetHubs()
 	streamLenient := map[string]bool{last.b.Name: true}
 	// the blob of the in-flight operation may be present (intact) or absent
 	resolve := func(phase string) *finding {
